@@ -135,4 +135,11 @@ def runWith (rh : Decide) (auth : Bool) (modes : Nat → Mode) : State → List 
 def run := runWith requestheaders
 def runOld := runWith (fun a m s _ => requestheadersOld a m s)
 
+/-- histories in which `upstream_auth` is changed at runtime: every event carries the option's state when it arrives -/
+def runVar (modes : Nat → Mode) : State → List (Nat × Bool × Ev) → List (Nat × Kind × List Write)
+  | _, [] => []
+  | σ, (cid, auth, e) :: rest =>
+    let r := step auth (modes cid) σ cid e
+    (cid, r.2.1, r.2.2) :: runVar modes r.1 rest
+
 end MitmVerif.C24
